@@ -105,6 +105,10 @@ def add_constants(namespace, registry):
 
 
 def _split_prefix(symbol_str, unit_symbol_lut):
+    if not symbol_str:
+        # an empty name has no prefix
+        return "", symbol_str
+
     possible_prefix = symbol_str[0]
 
     if symbol_str[:2] == "da":
